@@ -1331,19 +1331,19 @@ Proof.
 Qed.
 
 (* ---- serving a query ---- *)
-Lemma next_send_shape : forall c ls ls' p,
-  L.next_action c ls 0 = (ls', L.ASend p) ->
-  L.done ls' = false /\ L.pend ls' = L.premove p (L.pend ls) ++ [(p, 0)].
+Lemma next_send_shape : forall c ls t ls' p,
+  L.next_action c ls t = (ls', L.ASend p) ->
+  L.done ls' = false /\ L.pend ls' = L.premove p (L.pend ls) ++ [(p, t)].
 Proof.
-  intros c ls ls' p E. pose proof (LP.next_action_shape c ls 0) as Sh. rewrite E in Sh. cbn [fst snd] in Sh.
+  intros c ls t ls' p E. pose proof (LP.next_action_shape c ls t) as Sh. rewrite E in Sh. cbn [fst snd] in Sh.
   inversion Sh; subst; try discriminate; split; assumption.
 Qed.
 
-Lemma next_partial_shape : forall c ls ls' p r,
-  L.next_action c ls 0 = (ls', L.APartial p r) ->
+Lemma next_partial_shape : forall c ls t ls' p r,
+  L.next_action c ls t = (ls', L.APartial p r) ->
   L.done ls' = false /\ L.pend ls' = L.pend ls.
 Proof.
-  intros c ls ls' p r E. pose proof (LP.next_action_shape c ls 0) as Sh. rewrite E in Sh. cbn [fst snd] in Sh.
+  intros c ls t ls' p r E. pose proof (LP.next_action_shape c ls t) as Sh. rewrite E in Sh. cbn [fst snd] in Sh.
   inversion Sh; subst; try discriminate; split; assumption.
 Qed.
 
@@ -1374,12 +1374,12 @@ Proof.
   intros s q G. pose proof G as [Hl Hc Hf]. unfold serve.
   destruct (aget q (eng s)) as [[lk qr c ls | qr ps | pv pd n need] |] eqn:Eq; cbn [fst];
     [| | | split; [exact G | auto]].
-  - destruct (L.next_action c ls 0) as [ls' a] eqn:En.
+  - destruct (L.next_action c ls (now s)) as [ls' a] eqn:En.
     assert (Ha : 1 <= L.c_alpha c) by (apply (Hl _ _ Eq)).
     destruct a as [| p | | l | p r | | l]; cbn [fst].
     + split; [exact G | auto].
     + (* SendMessage *)
-      destruct (next_send_shape _ _ _ _ En) as [Hd' Hp].
+      destruct (next_send_shape _ _ _ _ _ En) as [Hd' Hp].
       set (s1 := set_q s q (QLookup lk qr c ls')).
       assert (Hl1 : lookups_live s1).
       { intros q' x. subst s1. rewrite set_q_get. destruct (q' =? q); [| apply Hl].
@@ -1409,7 +1409,7 @@ Proof.
     + destruct lk; cbn [fst]; first [ split; [apply del_q_GI; exact G | auto]
                                     | apply start_track_del; exact G ].
     + (* GetRecordPartialResult *)
-      destruct (next_partial_shape _ _ _ _ _ En) as [Hd' Hp].
+      destruct (next_partial_shape _ _ _ _ _ _ En) as [Hd' Hp].
       split; [| auto]. constructor; [| | exact Hf].
       * intros q' x. rewrite set_q_get. destruct (q' =? q); [| apply Hl].
         destruct (aget q' (eng s)); cbn [option_map]; [| discriminate]. intro H. inversion H. split; [exact Hd' | exact Ha].
@@ -1450,7 +1450,7 @@ Lemma on_cmd_GI : forall g s q c dists seeds,
   1 <= g_alpha g -> GI s -> GI (fst (on_cmd g s q c dists seeds)).
 Proof.
   intros g s q c dists seeds Ha G. unfold on_cmd.
-  destruct c as [| qr | qr | qr local |]; cbn [fst]; try (apply start_lookup_GI; [exact Ha | exact G]).
+  destruct c as [| qr | qr | qr local | | qr]; cbn [fst]; try (apply start_lookup_GI; [exact Ha | exact G]).
   destruct qr; destruct local; cbn [fst]; first [exact G | apply start_lookup_GI; [exact Ha | exact G]].
 Qed.
 
@@ -1486,12 +1486,13 @@ Proof.
   - cbn [fst]. apply on_inbound_GI. exact G.
   - destruct (on_future g s id r) as [s' o] eqn:E. cbn [fst].
     change s' with (fst (s', o)). rewrite <- E. apply on_future_GI. exact G.
+  - cbn [fst]. constructor; assumption.
 Qed.
 
 Lemma on_cmd_linked : forall g s q c dists seeds, linked s -> linked (fst (on_cmd g s q c dists seeds)).
 Proof.
   intros g s q c dists seeds H. unfold on_cmd.
-  destruct c as [| qr | qr | qr local |]; cbn [fst]; try exact H.
+  destruct c as [| qr | qr | qr local | | qr]; cbn [fst]; try exact H.
   destruct qr; destruct local; cbn [fst]; exact H.
 Qed.
 
@@ -1516,6 +1517,7 @@ Proof.
   - cbn [fst]. apply on_inbound_GI; assumption.
   - destruct (on_future g s id r) as [s' o] eqn:E. cbn [fst].
     change s' with (fst (s', o)). rewrite <- E. apply on_future_GI; assumption.
+  - cbn [fst]. exact Hk.
 Qed.
 
 Lemma run_cons : forall g s e t,
@@ -1585,8 +1587,8 @@ Proof.
   destruct x as [lk qr c ls | qr ps | pv pd n need]; cbn [has_action waiting] in *.
   - destruct (Hl _ _ A) as [Hd Hal].
     assert (Hp : L.pend ls = []) by (destruct (L.pend ls); [reflexivity | discriminate W]).
-    pose proof (LP.progress c ls 0 Hal Hd Hp) as P.
-    destruct (snd (L.next_action c ls 0)); [congruence | | | | | |]; discriminate Hq.
+    pose proof (LP.progress c ls (now s) Hal Hd Hp) as P.
+    destruct (snd (L.next_action c ls (now s))); [congruence | | | | | |]; discriminate Hq.
   - discriminate Hq.
   - subst pd. discriminate Hq.
 Qed.
@@ -1759,7 +1761,7 @@ Proof.
               (terminals q [o] + (if live q (start_track (del_q s q0) pv q0 l qr) then 1 else 0))%nat = (if live q s then 1 else 0)%nat).
     { intros pv l o Ho. rewrite (terminals_none q o Ho), live_start_track, live_del.
       destruct (N.eqb_spec q q0) as [E | E]; cbn [negb andb orb]; [subst q; rewrite Lq0; reflexivity | reflexivity]. }
-    destruct (L.next_action c ls 0) as [ls' a]. destruct a as [| p | | l | p r | | l]; cbn [fst snd].
+    destruct (L.next_action c ls (now s)) as [ls' a]. destruct a as [| p | | l | p r | | l]; cbn [fst snd].
     + reflexivity.
     + pose proof (open_or_dial_eng (set_q s q0 (QLookup lk qr c ls')) p (mkAct AFind q0)) as E.
       destruct (open_or_dial (set_q s q0 (QLookup lk qr c ls')) p (mkAct AFind q0)) as [s2 ok]. cbn [fst snd] in *.
@@ -1820,7 +1822,7 @@ Proof.
               (terminals q [] + lv q (start_lookup g s q0 lk qr c0 seeds))%nat = (lv q s + (if q0 =? q then 1 else 0))%nat).
     { intros lk qr c0. unfold lv, start_lookup. rewrite live_aset, N.eqb_sym.
       destruct (N.eqb_spec q0 q) as [E | E]; cbn [orb terminals filter length]; [subst q; rewrite Hfr; reflexivity | lia]. }
-    destruct c as [| qr | qr | qr local |]; cbn [fst snd]; try apply Start.
+    destruct c as [| qr | qr | qr local | | qr]; cbn [fst snd]; try apply Start.
     destruct qr; destruct local; cbn [fst snd]; try apply Start;
       unfold terminals; cbn [filter term_of opt_is]; unfold lv;
       destruct (N.eqb_spec q0 q) as [E | E]; cbn [length]; try (subst q; rewrite Hfr); try lia;
@@ -1841,6 +1843,7 @@ Proof.
   - cbn [fst snd]. apply Plain; [apply live_inbound | intros o []].
   - pose proof (live_on_future g s id r) as L. pose proof (on_future_outs g s id r) as T.
     destruct (on_future g s id r) as [s' o]. cbn [fst snd] in *. apply Plain; assumption.
+  - cbn [fst snd]. apply Plain; [apply live_same_eng; reflexivity | intros o []].
 Qed.
 
 Lemma started_cons : forall q e t, started q (e :: t) = (st_by e q + started q t)%nat.
@@ -2338,7 +2341,7 @@ Proof.
       - apply (QI_start_track es outs G s pv q0 l qr); [exact H1 | | left; reflexivity].
         specialize (H1 _ _ Eq). cbn [QI] in H1. apply H1. exact Hk.
       - intros q Sx. left. eapply success_app; [| exact Sx]. intros x [Hx | []]. subst x. reflexivity. }
-    destruct (L.next_action c ls 0) as [ls' a]. destruct a as [| p | | l | p r | | l]; cbn [fst snd].
+    destruct (L.next_action c ls (now s)) as [ls' a]. destruct a as [| p | | l | p r | | l]; cbn [fst snd].
     + exact Same.
     + pose proof (open_or_dial_eng (set_q s q0 (QLookup lk qr c ls')) p (mkAct AFind q0)) as E.
       destruct (open_or_dial (set_q s q0 (QLookup lk qr c ls')) p (mkAct AFind q0)) as [s2 ok]. cbn [fst snd] in *.
@@ -2444,8 +2447,8 @@ Proof.
       cbn [QI]. intro K. rewrite find_quorum_app, Fq. cbn [find_quorum]. rewrite (Hk K). reflexivity. }
     assert (Other : forall q1, q1 <> q -> quorum_of_ev q1 (ECmd q c dists seeds) = None).
     { intros q1 E. cbn [quorum_of_ev]. destruct c; try reflexivity;
-        destruct (N.eqb_spec q q1); [congruence | reflexivity | congruence | reflexivity]. }
-    unfold on_cmd. destruct c as [| qr | qr | qr local |]; cbn [fst snd].
+        destruct (N.eqb_spec q q1); first [congruence | reflexivity]. }
+    unfold on_cmd. destruct c as [| qr | qr | qr local | | qr]; cbn [fst snd].
     + apply Start; [intros x [] | intros [K | K]; discriminate K | exact Other].
     + apply Start; [intros x [] | intros _; cbn [quorum_of_ev]; rewrite N.eqb_refl; reflexivity | exact Other].
     + apply Start; [intros x [] | intros _; cbn [quorum_of_ev]; rewrite N.eqb_refl; reflexivity | exact Other].
@@ -2454,6 +2457,7 @@ Proof.
               | apply Start; [intros x Hx; cbn [In] in Hx; intuition; subst; reflexivity
                              | intros [K | K]; discriminate K | exact Other] ].
     + apply Start; [intros x [] | intros [K | K]; discriminate K | exact Other].
+    + apply Start; [intros x [] | intros _; cbn [quorum_of_ev]; rewrite N.eqb_refl; reflexivity | exact Other].
   - (* put_record_to_peers *)
     specialize (Hfr q eq_refl). pose proof (find_quorum_fresh _ _ _ _ _ q HI Hfr) as Fq. cbn [fst snd].
     apply HInv_start; [exact HI | exact Hfr | | intros x [] |].
@@ -2481,6 +2485,7 @@ Proof.
     pose proof (on_future_nosuccess g s id r) as T. fold (sent_by s (EFut id r)).
     destruct (on_future g s id r) as [s' o]. cbn [fst snd] in *.
     apply (HInv_step_rel es outs G seen s (EFut id r) o (sent_by s (EFut id r)) s' HI); try assumption. reflexivity.
+  - cbn [fst snd]. apply Plain; [apply eng_rel_eng; reflexivity | apply live_same_eng; reflexivity | reflexivity].
 Qed.
 
 Lemma run_HInv : forall g es pre outs G seen s,
@@ -2524,21 +2529,21 @@ Qed.
 
 (* ------------------------------------------------------------------ the drain loop terminates *)
 
-Lemma next_send_cands : forall c ls ls' p,
-  L.next_action c ls 0 = (ls', L.ASend p) ->
+Lemma next_send_cands : forall c ls t ls' p,
+  L.next_action c ls t = (ls', L.ASend p) ->
   S (length (L.cands ls')) = length (L.cands ls) /\ L.recq ls' = L.recq ls.
 Proof.
-  intros c ls ls' p E. pose proof (LP.next_action_shape c ls 0) as Sh. rewrite E in Sh. cbn [fst snd] in Sh.
+  intros c ls t ls' p E. pose proof (LP.next_action_shape c ls t) as Sh. rewrite E in Sh. cbn [fst snd] in Sh.
   inversion Sh; subst; try discriminate.
   match goal with H1 : L.cands ls = _ :: _ |- _ => rewrite H1 end.
   split; [reflexivity | assumption].
 Qed.
 
-Lemma next_partial_recq : forall c ls ls' p r,
-  L.next_action c ls 0 = (ls', L.APartial p r) ->
+Lemma next_partial_recq : forall c ls t ls' p r,
+  L.next_action c ls t = (ls', L.APartial p r) ->
   L.cands ls' = L.cands ls /\ S (length (L.recq ls')) = length (L.recq ls).
 Proof.
-  intros c ls ls' p r E. pose proof (LP.next_action_shape c ls 0) as Sh. rewrite E in Sh. cbn [fst snd] in Sh.
+  intros c ls t ls' p r E. pose proof (LP.next_action_shape c ls t) as Sh. rewrite E in Sh. cbn [fst snd] in Sh.
   inversion Sh; subst; try discriminate.
   match goal with H1 : L.recq ls = _ :: _ |- _ => rewrite H1 end. split; [assumption | reflexivity].
 Qed.
@@ -2598,9 +2603,9 @@ Proof.
               (qw (aget q0 (eng (start_track (del_q s q0) pv q0 l qr))) < qw (Some (QLookup lk qr c ls)))%nat).
     { intros pv l. destruct (start_track_get (del_q s q0) pv q0 l qr q) as [T1 T2]. rewrite T2. split; [| cbn; lia].
       intro Hn. rewrite (T1 Hn). unfold del_q. proj. apply aget_adel_other. exact Hn. }
-    destruct (L.next_action c ls 0) as [ls' a] eqn:En. destruct a as [| p | | l | p r | | l]; cbn [fst snd].
+    destruct (L.next_action c ls (now s)) as [ls' a] eqn:En. destruct a as [| p | | l | p r | | l]; cbn [fst snd].
     + discriminate.
-    + intros _. destruct (next_send_cands _ _ _ _ En) as [Hc Hr].
+    + intros _. destruct (next_send_cands _ _ _ _ _ En) as [Hc Hr].
       pose proof (open_or_dial_eng (set_q s q0 (QLookup lk qr c ls')) p (mkAct AFind q0)) as E.
       destruct (open_or_dial (set_q s q0 (QLookup lk qr c ls')) p (mkAct AFind q0)) as [s2 ok]. cbn [fst snd] in *.
       assert (G0 : aget q0 (eng s2) = Some (QLookup lk qr c ls')).
@@ -2614,7 +2619,7 @@ Proof.
         -- rewrite eng_fail_get, N.eqb_refl, G0. cbn [option_map qw]. rewrite q_fail_weight. cbn [qweight]. rewrite Hr. lia.
     + intros _. exact Del.
     + intros _. destruct lk; first [exact Del | apply Trk].
-    + intros _. destruct (next_partial_recq _ _ _ _ _ En) as [Hc Hr]. split.
+    + intros _. destruct (next_partial_recq _ _ _ _ _ _ En) as [Hc Hr]. split.
       * intro Hn. rewrite set_q_get. destruct (N.eqb_spec q q0); [congruence | reflexivity].
       * rewrite set_q_get, N.eqb_refl, Eq. cbn [option_map qw qweight]. rewrite Hc. lia.
     + intros _. exact Del.
